@@ -195,6 +195,18 @@ class PythonModuleInstance(ModuleInstance):
     def store_i64(self, address, value: int):
         self._py_module.rt.store_i64(address, value)
 
+    def load_f32(self, address: int) -> float:
+        return self._py_module.rt.load_f32(address)
+
+    def store_f32(self, address, value: float):
+        self._py_module.rt.store_f32(address, value)
+
+    def load_f64(self, address: int) -> float:
+        return self._py_module.rt.load_f64(address)
+
+    def store_f64(self, address, value: float):
+        self._py_module.rt.store_f64(address, value)
+
     def load_ptr(self, address: int) -> int:
         return self._py_module.rt.load_u32(address)
 
@@ -262,6 +274,8 @@ class PythonGlobalInstance(GlobalInstance):
         mp = {
             ir.i32: self.instance.load_i32,
             ir.i64: self.instance.load_i64,
+            ir.f32: self.instance.load_f32,
+            ir.f64: self.instance.load_f64,
         }
         f = mp[self.ty]
         return f(address)
@@ -271,6 +285,8 @@ class PythonGlobalInstance(GlobalInstance):
         mp = {
             ir.i32: self.instance.store_i32,
             ir.i64: self.instance.store_i64,
+            ir.f32: self.instance.store_f32,
+            ir.f64: self.instance.store_f64,
         }
         f = mp[self.ty]
         f(address, value)
